@@ -175,20 +175,30 @@ func (st *Stack) Tick(d int64) { st.PG.Clock += pgsem.TS(d) }
 type Recorder struct {
 	st     *Stack
 	Events []string
+	Seqs   []uint64          // pgsem commit sequence at the moment of each listener call
+	Hook   func(ev string)   // optional: called on every listener call (after recording)
+}
+
+func (r *Recorder) add(ev string) {
+	r.Events = append(r.Events, ev)
+	r.Seqs = append(r.Seqs, r.st.PG.CommitSeq())
+	if r.Hook != nil {
+		r.Hook(ev)
+	}
 }
 
 func (r *Recorder) CommittedTransactions(ctx context.Context, l string, res ledger.Transaction, accountMetadata ledger.AccountMetadata) {
-	r.Events = append(r.Events, fmt.Sprintf("committed %s %d", l, *res.ID))
+	r.add(fmt.Sprintf("committed %s %d", l, *res.ID))
 }
 func (r *Recorder) SavedMetadata(ctx context.Context, l string, targetType, id string, md metadata.Metadata) {
-	r.Events = append(r.Events, fmt.Sprintf("saved_metadata %s %s %s", l, targetType, id))
+	r.add(fmt.Sprintf("saved_metadata %s %s %s", l, targetType, id))
 }
 func (r *Recorder) RevertedTransaction(ctx context.Context, l string, reverted, revert ledger.Transaction) {
-	r.Events = append(r.Events, fmt.Sprintf("reverted %s %d %d", l, *reverted.ID, *revert.ID))
+	r.add(fmt.Sprintf("reverted %s %d %d", l, *reverted.ID, *revert.ID))
 }
 func (r *Recorder) DeletedMetadata(ctx context.Context, l string, targetType string, targetID any, key string) {
-	r.Events = append(r.Events, fmt.Sprintf("deleted_metadata %s %s %v %s", l, targetType, targetID, key))
+	r.add(fmt.Sprintf("deleted_metadata %s %s %v %s", l, targetType, targetID, key))
 }
 func (r *Recorder) InsertedSchema(ctx context.Context, l string, data ledger.Schema) {
-	r.Events = append(r.Events, fmt.Sprintf("inserted_schema %s %s", l, data.Version))
+	r.add(fmt.Sprintf("inserted_schema %s %s", l, data.Version))
 }
